@@ -359,7 +359,7 @@ pub fn a03(seed: u64, iters: u64) -> Assumption {
     let mut flips = Info::new("  of these, fract()==0 differs from 'exact product is an integer' (boundary of the assumption: the contract's integrality test is fooled)");
     let mut order = Info::new("operand order changes the result (n*price vs price*n)");
     let mut realistic = 0u64;
-    let mut realistic_bad = Info::new("  of these, price mantissa < 2^64 and n < 10^12");
+    let mut realistic_bad = Info::new("  rounded (non-representable) results with price mantissa < 2^64 and n < 10^12");
     let mut one = |a: &mut Assumption, mp: u128, sp: u32, n: u64| {
         let price = dec(mp, false, sp);
         let dn = Decimal::from(n as u128);
@@ -923,19 +923,20 @@ pub fn a19(seed: u64, iters: u64) -> Assumption {
 }
 
 // ------------------------------------------------------------------------------------------------ negative zero (extra)
-/// the shim's ghost flag `nz`: from_str, checked_mul, checked_sub, checked_div, checked_add, fract, round, round_dp,
-/// round_dp_with_strategy, from_u128, From<u128>, zero() are claimed never to return a negative zero (for ANY input,
-/// including inputs that are themselves negative zeros); only trunc/floor/ceil/abs/neg may.
+/// the shim's ghost flag `nz`: from_str, checked_mul, checked_div, from_u128, From<u128>, zero() are claimed never to
+/// return a negative zero; fract, round, round_dp, round_dp_with_strategy, checked_sub, checked_add only when an operand
+/// already is one; trunc/floor/ceil/abs/neg are unconstrained.
 pub fn a20(seed: u64, iters: u64) -> Assumption {
     nz_audit(seed, iters, false)
 }
-/// the same functions applied to operands that already ARE negative zeros (the shim's `!r.nz@` is unconditional)
+/// the same functions applied to operands that already ARE negative zeros: `!r.nz` stays unconditional for
+/// checked_mul / checked_div (and from_str, zero, from_u128, From<u128>); the other functions may propagate the operand's
 pub fn a21(seed: u64, iters: u64) -> Assumption {
     nz_audit(seed, iters, true)
 }
 fn nz_audit(seed: u64, iters: u64, nz_inputs: bool) -> Assumption {
     let mut a = if nz_inputs {
-        Assumption::new("A-DEC-NZ-21", "no negative zero from checked_mul/sub/div/add/fract/round/round_dp/round_dp_with_strategy EVEN IF an operand is a negative zero (`!r.nz@` is claimed unconditionally)")
+        Assumption::new("A-DEC-NZ-21", "with a negative-zero operand: checked_mul/checked_div still never return a negative zero; fract/round/round_dp/round_dp_with_strategy/checked_sub/checked_add may only propagate one (r.nz ==> an operand is nz)")
     } else {
         Assumption::new("A-DEC-NZ-20", "no negative zero from from_str/checked_mul/sub/div/add/fract/round/round_dp/round_dp_with_strategy/from_u128/From<u128> when no operand is a negative zero")
     };
@@ -944,22 +945,30 @@ fn nz_audit(seed: u64, iters: u64, nz_inputs: bool) -> Assumption {
     let mut zero_results = 0u64;
     let mut from_nz_input = 0u64;
     // per function: (negative zeros returned for inputs none of which is a negative zero, ... for a negative-zero input)
-    let stats: std::cell::RefCell<std::collections::BTreeMap<String, (u64, u64, String)>> = std::cell::RefCell::new(Default::default());
+    let stats: std::cell::RefCell<std::collections::BTreeMap<String, (u64, u64, String, String)>> = std::cell::RefCell::new(Default::default());
     let nz = |a: &mut Assumption, zero_results: &mut u64, what: &dyn Fn() -> String, r: Option<Decimal>| {
         if let Some(r) = r {
             if r.mantissa() == 0 {
                 *zero_results += 1;
             }
-            a.check(!is_neg_zero(&r), || format!("{} = {} is a negative zero", what(), show(&r)));
-            if is_neg_zero(&r) {
+            if !is_neg_zero(&r) {
+                a.check(true, String::new);
+            } else {
                 let w = what();
                 let fname = w.split(|c| c == '(').next().unwrap_or("").rsplit('.').next().unwrap_or("").to_string();
                 let fname = if w.starts_with("from_str") { "from_str".to_string() } else { fname };
                 let input_nz = w.contains(",-0]");
+                // claimed: fract/round/round_dp/round_dp_with_strategy: r.nz ==> self.nz ; checked_sub/checked_add:
+                // r.nz ==> self.nz || o.nz ; everything else (from_str, checked_mul, checked_div, zero, from_u128, From): !r.nz
+                let may_propagate = matches!(fname.as_str(), "fract" | "round" | "round_dp" | "round_dp_with_strategy" | "checked_sub" | "checked_add");
+                a.check(input_nz && may_propagate, || format!("{} = {} is a negative zero", w, show(&r)));
                 let mut st = stats.borrow_mut();
-                let e = st.entry(fname).or_insert((0, 0, String::new()));
+                let e = st.entry(fname).or_insert((0, 0, String::new(), String::new()));
                 if input_nz {
                     e.1 += 1;
+                    if e.3.is_empty() {
+                        e.3 = format!("{} = {}", w, show(&r));
+                    }
                 } else {
                     e.0 += 1;
                     if e.2.is_empty() {
@@ -1056,9 +1065,11 @@ fn nz_audit(seed: u64, iters: u64, nz_inputs: bool) -> Assumption {
         }
     }
     a.note(format!("results that are zero: {} ; unary inputs that are negative zeros: {}", zero_results, from_nz_input));
-    for (f, (clean, dirty, ex)) in stats.borrow().iter() {
-        a.note(format!("negative zero returned by {}: {} times with no negative-zero operand{} ; {} times when an operand already was a negative zero",
-            f, clean, if ex.is_empty() { String::new() } else { format!(" (first: {})", ex) }, dirty));
+    for (f, (clean, dirty, ex, exd)) in stats.borrow().iter() {
+        let line = format!("negative zero returned by {}: {} times with no negative-zero operand{} ; {} times when an operand already was a negative zero (propagation, in line with the claim)",
+            f, clean, if ex.is_empty() { String::new() } else { format!(" (first: {})", ex) }, dirty);
+        let line = if exd.is_empty() { line } else { format!("{} (first: {})", line, exd) };
+        a.note(line);
     }
     let may: Vec<String> = [("trunc", dec(4, true, 1).trunc()), ("floor", dec(0, false, 0).floor()), ("ceil", dec(4, true, 1).ceil()), ("abs", dec(4, true, 1).trunc().abs()), ("neg", -Decimal::ZERO)]
         .iter().map(|(n, d)| format!("{} -> {}", n, show(d))).collect();
